@@ -169,6 +169,15 @@ def correspond(hist_path, workdir, profile='dev', jobs=16, tag='run'):
             dis.append({'hid': h, 'idx': -1, 'cat': 'shape', 'detail': 'impl %d records, model %d' % (len(ir), len(mr))})
             continue
         for k, (a, b) in enumerate(zip(ir, mr)):
+            if profile == 'wrap' and b['status'] == 'panic':
+                # the model (checked arithmetic) panics here: with deployment arithmetic the
+                # implementation must reject as well; if it accepts, a counter wrapped silently and
+                # nothing after this point is comparable
+                if a['status'] == 'ok':
+                    dis.append({'hid': h, 'idx': k - 1, 'cat': 'wrap',
+                                'detail': 'accepted with overflow-checks off where checked arithmetic overflows'})
+                    break
+                continue
             for (cat, det) in diff_call(a, b):
                 dis.append({'hid': h, 'idx': k - 1, 'cat': cat, 'detail': det})
     return impl, model, horder, dis, anomalies, hs
